@@ -42,6 +42,7 @@ def units(tier):
             out.append({'fam': 'top', 'inner': inner, 'L': Li, 'shard': [sh, n]})
     for sh in range(4):
         out.append({'fam': 'top', 'inner': 'to_list', 'L': 5 if tier == 'quick' else 6, 'shard': [sh, 4], 'alpha': [6, 7, 8, 9, 3]})
+    out.append({'fam': 'many', 'wide': True, 'shard': [0, 1]})
     ng = 10 if tier == 'quick' else 13
     for sh in range(8):
         out.append({'fam': 'many', 'groups': ng, 'shard': [sh, 8]})
@@ -63,6 +64,9 @@ def cases(unit):
         for i, seq in enumerate(spaces.sequences(unit.get('alpha', [0, 1, 2, 3, 4]), unit['L'])):
             if i % n == sh:
                 yield {'fam': 'top', 'inner': unit['inner'], 'seq': seq}
+    elif fam == 'many' and unit.get('wide'):
+        yield {'fam': 'wide', 'n': 300}
+        yield {'fam': 'wide', 'n': 129}
     elif fam == 'many':
         # many groups: the j-th new inner group belongs to parent bit j of the mask (all 2^n assignments)
         for mask in range(2 ** unit['groups']):
@@ -101,6 +105,27 @@ def run_case(case, acc):
         return run_raw(case, acc)
     if fam == 'many':
         return run_many(case, acc)
+    if fam == 'wide':
+        # hundreds of groups (indices and key values beyond the interpreter's small-int range), three interleaved passes
+        n = case['n']
+        opspecs.FUNCS['k_wide'] = lambda x, n=n: 1000 + (x % n)
+        items = list(range(n)) + list(range(n - 1, -1, -1)) + [x for x in range(n) if x % 3 == 0]
+        spec = [['group_by', 'k_wide', [['to_list']]]]
+        sink, ctx, store = harness.run_api(spec, items)
+        acc.evals += 1
+        acc.events += len(items) + 1
+        acc.traces += 1
+        exp = harness.model_all(spec, items)
+        out = []
+        sp = harness.status_problem(sink)
+        if sp:
+            out.append(viol('wide', sp, {'groups': n, 'error': repr(sink.error)}))
+        kind = harness.diff_kind(exp, sink.items)
+        if kind:
+            out.append(viol('wide', 'to_list-output-' + kind, {'groups': n, 'expected_first': exp[:3], 'observed_first': sink.items[:3]}))
+        acc.nontrivial.add(fast_hash(repr(case)))
+        acc.outcomes.add(fast_hash(repr(sink.items)))
+        return out
     items = [10 * i + c for i, c in enumerate(case['seq'])]
     keyf = opspecs.F('k_mixed')
     if fam == 'top':
